@@ -47,10 +47,9 @@ def clean_part(p):
 def _forall_parts(parts, tag, body):
     i = z3.Int(f"i!{tag}")
     f = z3.Implies(z3.And(i >= 0, i < z3.Length(parts)), body(parts[i]))
-    try:
+    if z3.is_const(parts) and parts.decl().kind() == z3.Z3_OP_UNINTERPRETED:
         return z3.ForAll([i], f, patterns=[parts[i]])
-    except z3.Z3Exception:
-        return z3.ForAll([i], f)
+    return z3.ForAll([i], f)
 
 
 def all_clean(it, parts, tag="q"):
